@@ -105,8 +105,16 @@ func main() {
 			m.Funcs = append(m.Funcs, c.CarryFunc(m, rng))
 			carry = len(m.Hosts) + len(m.Funcs) - 1
 		}
+		wrapf := -1
+		if m.HasMem && i%4 < 2 {
+			m.Funcs = append(m.Funcs, c.WrapAddrFunc(m))
+			wrapf = len(m.Hosts) + len(m.Funcs) - 1
+		}
 		bin := m.Encode()
 		var calls [][]uint64
+		if wrapf >= 0 { // upper half set, lower half in bounds
+			calls = append(calls, []uint64{uint64(wrapf), 1<<32 | uint64(8*rng.Intn(64))}, []uint64{uint64(wrapf), uint64(rng.Intn(3))<<40 | 16})
+		}
 		if carry >= 0 {
 			for _, nn := range []uint64{rng.Pick([]uint64{2, 3, 4, 5, 9}), rng.Pick([]uint64{0, 1, 2})} {
 				calls = append(calls, []uint64{uint64(carry), nn})
@@ -116,6 +124,9 @@ func main() {
 			nrand := len(m.Funcs)
 			if carry >= 0 {
 				nrand-- // the carry function loops n times: it is only called with the small counts above
+			}
+			if wrapf >= 0 {
+				nrand-- // it comes last; random i64 arguments are fine but it has its own calls
 			}
 			fi := len(m.Hosts) + rng.Intn(nrand)
 			cl := []uint64{uint64(fi)}
